@@ -217,9 +217,13 @@ class BZip {
     }
 
     bool Process() {
+      const bool no_input = !stream_.avail_in;
+      const char *const out_before = stream_.next_out;
       int ret = BZ2_bzDecompress(&stream_);
       if (ret == BZ_STREAM_END) return false;
       HandleError(ret);
+      // bzip2 has no BZ_BUF_ERROR: without input and without output it would report BZ_OK for ever.
+      UTIL_THROW_IF(no_input && stream_.next_out == out_before, BZException, "bzip2 file ended before the end of the compressed stream.");
       return true;
     }
 
